@@ -51,6 +51,29 @@ pub fn observation(sys: &Sys) -> String {
     format!("run={} exited={} children={:?}", result_class(&sys.run_result()), sys.main_done(), per)
 }
 
+/// watch-mode observation for metamorphic comparisons: how often a target re-ran is schedule- and
+/// path-dependent (an extra dependency is an extra source of delay, two invalidation paths may or may not
+/// coalesce); what is compared at quiescence is whether each target ran, whether a process of it is alive,
+/// and whether its last start is later than the last start of everything it depends on
+pub fn observation_coarse(sys: &Sys) -> String {
+    let cfg = &sys.cfg;
+    let evs = sys.events_from(0);
+    let last_spawn = |t: &str| evs.iter().rposition(|e| matches!(e, Ev::Spawn { t: x, .. } if x == t));
+    let ch = sys.children();
+    let mut v = vec![];
+    for t in cfg.targets.iter().filter(|t| t.kind != Kind::A) {
+        let ran = last_spawn(&t.name);
+        let live = ch.iter().any(|c| c.target == t.name && c.status.is_none());
+        // fresh: its last start is later than the last start of everything it (transitively) depends on
+        let fresh = match ran {
+            None => false,
+            Some(s) => cfg.deps_star(&t.name).iter().filter(|d| cfg.targets.iter().any(|x| &x.name == *d && x.kind != Kind::A)).all(|d| last_spawn(d).map(|ds| ds < s).unwrap_or(false)),
+        };
+        v.push(format!("{}:{}{}{}", t.name, if ran.is_some() { "ran" } else { "never" }, if live { "+live" } else { "" }, if fresh { "+fresh" } else { "+STALE" }));
+    }
+    format!("run={} exited={} {}", result_class(&sys.run_result()), sys.main_done(), v.join(" "))
+}
+
 fn ok_finished(evs: &[Ev], t: &str) -> bool {
     evs.iter().any(|e| matches!(e, Ev::Finish { t: x, code: 0, .. } if x == t))
 }
@@ -807,6 +830,7 @@ pub fn check_c04(rep: &mut Report) {
         let out = sweep(coarse, &mk, dl, 5_000_000);
         fill_report(rep, &out, "handler-level (under-approximation, labelled): named 5-target shapes");
     }
+    selfcheck_reduced_vs_exact(rep);
     finalize(rep);
 }
 
@@ -871,6 +895,9 @@ pub fn check_c01(rep: &mut Report) {
     // watch mode: after each out-of-date notice
     let out = sweep(watch_cfgs(2, 2, if rep.thorough() { 2 } else { 1 }), &mk, dl, 3_000_000);
     fill_report(rep, &out, "watch, reduced: graphs <=2 targets, notification budget 1 (2 thorough)");
+    let wf: Vec<Cfg> = watch_cfgs(2, 2, 1).into_iter().filter(|c| !builds(c).is_empty()).map(|mut c| { c.may_fail = builds(&c); c }).collect();
+    let out = sweep(wf, &mk, dl, 3_000_000);
+    fill_report(rep, &out, "watch, reduced: graphs <=2 targets x requested lists <=2, every build may fail, one notification");
     let w3: Vec<Cfg> = watch_cfgs(3, 1, 1).into_iter().filter(|c| c.targets.len() == 3).collect();
     let w3: Vec<Cfg> = if rep.thorough() { w3 } else { w3.into_iter().filter(|c| c.targets.iter().all(|t| t.kind != Kind::A || !t.deps.is_empty())).step_by(6).collect() };
     let out = sweep(w3, &mk, dl, 1_500_000);
@@ -925,9 +952,33 @@ pub fn check_c07(rep: &mut Report) {
     let v: Vec<Cfg> = if rep.thorough() { v } else { v.into_iter().filter(|c| c.name != "two-roots-sharing-leaf" && c.name != "diamond-S-middle").collect() };
     let out = sweep(v, &mk, dl, 3_000_000);
     fill_report(rep, &out, "one-shot: named 4-target shapes, every build may fail");
+    // exact mode, small queues: a failure must get through also when the output queue is full
+    let mut v = vec![];
+    let caps: Vec<usize> = if rep.thorough() { vec![1, 2] } else { vec![1] };
+    for cap in caps {
+        for c in small_cfgs(2, 2).into_iter().filter(distinct_roots).chain(vec![fan_out(2, Kind::A, Kind::B)]) {
+            if builds(&c).is_empty() {
+                continue;
+            }
+            for watch in [false, true] {
+                // quick: watch mode only for single-root graphs
+                if watch && !rep.thorough() && (c.roots.len() > 1 || c.targets.len() > 2) {
+                    continue;
+                }
+                let mut e = c.clone();
+                e.exact = true;
+                e.cap = Some(cap);
+                e.may_fail = builds(&c);
+                e.watch = watch;
+                v.push(e);
+            }
+        }
+    }
+    let out = sweep(v, &mk, dl, 3_000_000);
+    fill_report(rep, &out, "exact: queue capacity 1 (thorough: and 2), graphs <=2 targets + fan-out 2, one-shot and watch (quick: single root), every build may fail");
     // watch mode: failure reported, dependents blocked, relay keeps going, later change handled
     let mut v = vec![];
-    for c in watch_cfgs(if rep.thorough() { 3 } else { 2 }, 1, 1) {
+    for c in watch_cfgs(if rep.thorough() { 3 } else { 2 }, 2, 1) {
         if builds(&c).is_empty() {
             continue;
         }
@@ -1221,6 +1272,80 @@ pub fn check_c20(rep: &mut Report) {
     fill_report(rep, &out_l, "requested = [aggregate]");
     fill_report(rep, &out_r, "requested = dependencies of the aggregate");
     rep.set("pairs_compared", json!(compared));
+    // aggregates below other targets: replacing an inner aggregate by its dependencies must not change anything
+    // either, in one-shot runs and in watch mode after a notification
+    let flatten = |c: &Cfg| -> Option<Cfg> {
+        let inner: Vec<String> = c.targets.iter().filter(|t| t.kind == Kind::A && !c.roots.contains(&t.name)).map(|t| t.name.clone()).collect();
+        if inner.is_empty() {
+            return None;
+        }
+        let mut f = c.clone();
+        for a in &inner {
+            let adeps = c.spec(a).deps.clone();
+            for t in f.targets.iter_mut() {
+                if let Some(pos) = t.deps.iter().position(|d| d == a) {
+                    t.deps.remove(pos);
+                    for d in &adeps {
+                        if !t.deps.contains(d) {
+                            t.deps.insert(pos.min(t.deps.len()), d.clone());
+                        }
+                    }
+                }
+            }
+        }
+        f.targets.retain(|t| !inner.contains(&t.name));
+        Some(f)
+    };
+    let mut lhs = vec![];
+    let mut rhs = vec![];
+    let candidates: Vec<Cfg> = shape_cfgs(3, 1).into_iter().chain(named4().into_iter().filter(|c| ["build-over-aggregate-of-two-builds", "service-over-aggregate-of-build-and-service", "diamond-A-middle"].contains(&c.name.as_str()))).collect();
+    for c in candidates {
+        if c.spec(&c.roots[0]).kind == Kind::A {
+            continue;
+        }
+        if let Some(f) = flatten(&c) {
+            for watch in [false, true] {
+                if watch && c.targets.len() > 3 && !rep.thorough() {
+                    continue;
+                }
+                let prep = |x: &Cfg| {
+                    let mut x = if watch { with_inputs(x.clone()) } else { x.clone() };
+                    x.watch = watch;
+                    x.notify_budget = if watch { 1 } else { 0 };
+                    x
+                };
+                lhs.push(prep(&c));
+                rhs.push(prep(&f));
+            }
+        }
+    }
+    let mk2 = |c: &Cfg| {
+        let watch = c.watch;
+        Checks { step: Box::new(c01_step), terminal: Box::new(move |s, _| if watch { observation_coarse(s) } else { observation(s) }) }
+    };
+    let out_l2 = sweep(lhs, &mk2, dl, 3_000_000);
+    let out_r2 = sweep(rhs, &mk2, dl, 3_000_000);
+    let mut compared2 = 0u64;
+    for (i, ((cl, sl), (cr, sr))) in out_l2.per.iter().zip(out_r2.per.iter()).enumerate() {
+        if sl.capped || sr.capped {
+            continue;
+        }
+        compared2 += 1;
+        let ol: BTreeSet<&String> = sl.observations.keys().collect();
+        let or: BTreeSet<&String> = sr.observations.keys().collect();
+        if ol != or {
+            let only_l: Vec<&&String> = ol.difference(&or).collect();
+            let only_r: Vec<&&String> = or.difference(&ol).collect();
+            rep.violation(
+                format!("inner-aggregate-not-equivalent{}: {} observation(s) only with the aggregate, {} only without", if cl.watch { " (watch)" } else { "" }, only_l.len(), only_r.len()),
+                format!("replacing the inner aggregate by its dependencies changes the set of terminal observations\n  with the aggregate    [{}]\n    only here: {:?}\n  without the aggregate [{}]\n    only here: {:?}", cl.short(), only_l, cr.short(), only_r),
+                json!({"engine": "actorcheck-pair", "cfg": cl, "cfg_rhs": cr, "actions": sl.sample_terminal_trace, "cfg_short": cl.short(), "pair_index": i}),
+            );
+        }
+    }
+    fill_report(rep, &out_l2, "inner aggregates kept (one-shot and watch with one notification)");
+    fill_report(rep, &out_r2, "inner aggregates replaced by their dependencies");
+    rep.set("inner_aggregate_pairs_compared", json!(compared2));
     finalize(rep);
 }
 
@@ -1492,4 +1617,38 @@ pub fn check_phases(rep: &mut Report, label: &str, prompt_exit: bool) {
     let dl = deadline(rep, 150, 1800);
     let out = sweep(phase_cfgs(rep.thorough()), &mk, dl, 2_000_000);
     fill_report(rep, &out, label);
+}
+
+/// DESIGN §3.4 self-check: on small configurations the reduced mode (eager relay) and the exact mode
+/// (relay as an action, real capacity) must give the same set of terminal observations; a difference is a
+/// machinery error (the reduction argument would be wrong), never a verdict about zinoma.
+pub fn selfcheck_reduced_vs_exact(rep: &mut Report) {
+    let mk = |_: &Cfg| Checks { step: Box::new(noop_step), terminal: Box::new(|s, _| observation(s)) };
+    let mut base: Vec<Cfg> = small_cfgs(2, 2).into_iter().filter(distinct_roots).collect();
+    if rep.thorough() {
+        base.extend(shape_cfgs(3, 1).into_iter().step_by(4));
+    }
+    let mut with_fail = vec![];
+    for c in &base {
+        let mut f = c.clone();
+        f.may_fail = builds(c);
+        with_fail.push(f);
+    }
+    let exact: Vec<Cfg> = with_fail.iter().map(|c| { let mut e = c.clone(); e.exact = true; e.cap = None; e }).collect();
+    let dl = deadline(rep, 100, 900);
+    let a = sweep(with_fail, &mk, dl, 2_000_000);
+    let b = sweep(exact, &mk, dl, 2_000_000);
+    let mut compared = 0u64;
+    for ((ca, sa), (_cb, sb)) in a.per.iter().zip(b.per.iter()) {
+        if sa.capped || sb.capped {
+            continue;
+        }
+        compared += 1;
+        let oa: BTreeSet<&String> = sa.observations.keys().collect();
+        let ob: BTreeSet<&String> = sb.observations.keys().collect();
+        if oa != ob {
+            rep.machinery_errors.push(format!("reduced and exact mode disagree on {}: only reduced {:?}; only exact {:?}", ca.short(), oa.difference(&ob).collect::<Vec<_>>(), ob.difference(&oa).collect::<Vec<_>>()));
+        }
+    }
+    rep.set("selfcheck_reduced_vs_exact", json!({"configurations_compared": compared, "reduced_states": a.total.states, "exact_states": b.total.states, "result": "identical sets of terminal observations"}));
 }
